@@ -67,3 +67,122 @@ Example C16_example :
   map Qred (q_basis_integrate (1#10000000000) b 0 2) = [(1#3); (2#3); (2#3); (1#3)]%Q /\
   map Qred (q_obj_center (1#10000000000) (q_mkObj [q_mkBasis 2 [0; 0; 1; 1]%Q 0] [[0; 0]; [2; 4]]%Q 2 false)) = [1; 2]%Q.
 Proof. vm_compute. split; reflexivity. Qed.
+
+(* ------------------------------------------------------------------------------------------------------
+   Added in build session 4 (statements re-stated from the proof files by harness tooling; each is closed by
+   exact). *)
+From Coquelicot Require Import Coquelicot.
+From SplipyModel Require Import Proofs.ObjEval Proofs.IntegrateFTC.
+Open Scope R_scope.
+Theorem C16_integral_of_basis_function :
+  forall k : nat -> R,
+         BSpline.sorted k ->
+         forall (q i M : nat) (a b : R),
+         a < b ->
+         b <= k (i + M)%nat -> is_RInt (fun t : R => B true k q i t) a b (Aint k false q i M b - Aint k true q i M a).
+Proof. exact @B_RInt_gen. Qed.
+Print Assumptions C16_integral_of_basis_function.
+
+Theorem C16_antiderivative_never_jumps :
+  forall k : nat -> R,
+         BSpline.sorted k ->
+         forall (q i M : nat) (x : R), x < k (i + M)%nat -> Aint k true q i M x = Aint k false q i M x.
+Proof. exact @Aint_continuous_gen. Qed.
+Print Assumptions C16_antiderivative_never_jumps.
+
+Theorem C16_integral_inside_domain :
+  forall k : nat -> R,
+         BSpline.sorted k ->
+         forall (q i M : nat) (a b : R),
+         k (S q) <= a ->
+         a < b ->
+         b <= k (i + M)%nat -> is_RInt (fun t : R => B true k q i t) a b (Aint k false q i M b - Aint k true q i M a).
+Proof. exact @B_RInt. Qed.
+Print Assumptions C16_integral_inside_domain.
+
+Theorem C16_integral_over_support :
+  forall k : nat -> R,
+         BSpline.sorted k ->
+         forall q i : nat,
+         k (S q) <= k i ->
+         k i < k (i + S q)%nat ->
+         is_RInt (fun t : R => B true k q i t) (k i) (k (i + S q)%nat) ((k (i + S q)%nat - k i) / INR (S q)).
+Proof. exact @B_RInt_support. Qed.
+Print Assumptions C16_integral_over_support.
+
+Theorem C16_integrals_sum_to_length :
+  forall k : nat -> R,
+         BSpline.sorted k ->
+         forall (q N : nat) (a c : R),
+         k (S q) <= a ->
+         a < c -> c <= k N -> sumf (fun i : nat => Aint k false q i (N - i) c - Aint k true q i (N - i) a) 0 N = c - a.
+Proof. exact @B_RInt_sum. Qed.
+Print Assumptions C16_integrals_sum_to_length.
+
+Theorem C16_basis_integrate_is_integral_snapped :
+  forall (tol : R) (b : basis R),
+         wf_basis_R tol b ->
+         b_per1 b = 0%nat ->
+         0 < tol ->
+         forall (t0 t1 : R) (i : nat),
+         let a := sn tol b (clamp_lo b t0) in
+         let c := sn tol b (clamp_hi b t1) in
+         b_start b <= a <= b_end b ->
+         b_start b <= c <= b_end b ->
+         (i < length (b_knots b) - b_order b)%nat ->
+         is_RInt (fun t : R => B true (BasisDef.kn (b_knots b)) (b_order b - 1) i t) a c
+           (nth i (basis_integrate tol b t0 t1) 0).
+Proof. exact @basis_integrate_is_RInt_snapped. Qed.
+Print Assumptions C16_basis_integrate_is_integral_snapped.
+
+Theorem C16_basis_integrate_is_integral :
+  forall (tol : R) (b : basis R),
+         wf_basis_R tol b ->
+         b_per1 b = 0%nat ->
+         0 < tol ->
+         forall (t0 t1 : R) (i : nat),
+         b_start b <= t0 <= b_end b ->
+         b_start b <= t1 <= b_end b ->
+         sn tol b t0 = t0 ->
+         sn tol b t1 = t1 ->
+         (i < length (b_knots b) - b_order b)%nat ->
+         is_RInt (fun t : R => B true (BasisDef.kn (b_knots b)) (b_order b - 1) i t) t0 t1
+           (nth i (basis_integrate tol b t0 t1) 0).
+Proof. exact @basis_integrate_is_RInt. Qed.
+Print Assumptions C16_basis_integrate_is_integral.
+
+Theorem C16_basis_integrate_RInt :
+  forall (tol : R) (b : basis R),
+         wf_basis_R tol b ->
+         b_per1 b = 0%nat ->
+         0 < tol ->
+         forall (t0 t1 : R) (i : nat),
+         b_start b <= t0 <= b_end b ->
+         b_start b <= t1 <= b_end b ->
+         sn tol b t0 = t0 ->
+         sn tol b t1 = t1 ->
+         (i < length (b_knots b) - b_order b)%nat ->
+         nth i (basis_integrate tol b t0 t1) 0 =
+         RInt (fun t : R => B true (BasisDef.kn (b_knots b)) (b_order b - 1) i t) t0 t1.
+Proof. exact @basis_integrate_RInt. Qed.
+Print Assumptions C16_basis_integrate_RInt.
+
+Theorem C16_basis_integrate_length :
+  forall (tol : R) (b : basis R),
+         wf_basis_R tol b ->
+         b_per1 b = 0%nat ->
+         0 < tol ->
+         forall t0 t1 : R,
+         b_start b <= sn tol b (clamp_lo b t0) <= b_end b ->
+         length (basis_integrate tol b t0 t1) = (length (b_knots b) - b_order b)%nat.
+Proof. exact @basis_integrate_length. Qed.
+Print Assumptions C16_basis_integrate_length.
+
+Theorem C16_integral_hypotheses_satisfiable :
+  forall i : nat,
+         (i < 6)%nat ->
+         is_RInt (fun t : R => B true (BasisDef.kn [0; 0; 0; 1; 1; 1; 2; 2; 2]) 2 i t) (1 / 2) 
+           (3 / 2) (nth i (basis_integrate (1 / 100) ex_b3m (1 / 2) (3 / 2)) 0).
+Proof. exact @ex_model_RInt_multiple. Qed.
+Print Assumptions C16_integral_hypotheses_satisfiable.
+
